@@ -582,6 +582,7 @@ class DataLinkConnection(TransmissionControlObject):
                 self.send_token.notify_all()
                 self.acks_ready.notify_all()
                 send_pdu = pdu.Disconnect(self.peer, self.addr)
+                self.send_queue.clear()
                 self.send_queue.append(send_pdu)
                 try:
                     super(DataLinkConnection, self).recv()
